@@ -204,7 +204,8 @@ class M(Model):
             total += 10.0 if (v in self._todo(prev, k) and v not in visited[k]) else -1.0
         return total, slack
 
-    def objective(self, ep):
+    # not registered with the drivers: this environment is outside the property's enumerated list
+    def unused_objective(self, ep):
         total, slack = 0.0, 1e-4
         prev = ep.s0
         for a, s in zip(ep.actions, ep.states):
@@ -496,7 +497,13 @@ class M(Model):
         for v in range(self.N):
             who = [a for a in range(self.A) if v in visited[a]]
             if len(who) > 1:
-                continue  # visited by two agents: not defined by the docs
+                # visited by several agents: which of them names the node is not defined by the docs, but the
+                # label must still be the label of ONE of the agents that connected it
+                if int(got[v]) not in {2 * a for a in who}:
+                    out.append(("node connected by several agents is labelled with none of them",
+                                f"node {v} connected by {who}: obs {int(got[v])}"))
+                    break
+                continue
             if len(who) == 1:
                 want = 2 * who[0]
             elif types[v] >= 0:
